@@ -295,6 +295,7 @@ impl<M: Manager, W: From<Object<M>>> Pool<M, W> {
                     vec: VecDeque::with_capacity(builder.config.max_size),
                     size: 0,
                     max_size: builder.config.max_size,
+                    owed: 0,
                 }),
                 users: AtomicUsize::new(0),
                 semaphore: Semaphore::new(builder.config.max_size),
@@ -334,21 +335,36 @@ impl<M: Manager, W: From<Object<M>>> Pool<M, W> {
         };
 
         let permit = if non_blocking {
-            self.inner.semaphore.try_acquire().map_err(|e| match e {
-                TryAcquireError::Closed => PoolError::Closed,
-                TryAcquireError::NoPermits => PoolError::Timeout(TimeoutType::Wait),
-            })?
+            loop {
+                let permit = self.inner.semaphore.try_acquire().map_err(|e| match e {
+                    TryAcquireError::Closed => PoolError::Closed,
+                    TryAcquireError::NoPermits => PoolError::Timeout(TimeoutType::Wait),
+                })?;
+                if self.inner.settle_owed_permit() {
+                    permit.forget();
+                } else {
+                    break permit;
+                }
+            }
         } else {
             apply_timeout(
                 self.inner.runtime,
                 TimeoutType::Wait,
                 timeouts.wait,
                 async {
-                    self.inner
-                        .semaphore
-                        .acquire()
-                        .await
-                        .map_err(|_| PoolError::Closed)
+                    loop {
+                        let permit = self
+                            .inner
+                            .semaphore
+                            .acquire()
+                            .await
+                            .map_err(|_| PoolError::Closed)?;
+                        if self.inner.settle_owed_permit() {
+                            permit.forget();
+                        } else {
+                            break Ok::<_, PoolError<M::Error>>(permit);
+                        }
+                    }
                 },
             )
             .await?
@@ -475,12 +491,24 @@ impl<M: Manager, W: From<Object<M>>> Pool<M, W> {
         slots.max_size = max_size;
         // shrink pool
         if max_size < old_max_size {
-            while slots.size > slots.max_size {
+            // Take as many permits out of circulation as the pool shrinks
+            // by. Permits which are not available right now (objects that
+            // are checked out, `get()` calls in progress) are remembered in
+            // `slots.owed` and swallowed as soon as they come back.
+            let mut remove = old_max_size - max_size;
+            while remove > 0 {
                 if let Ok(permit) = self.inner.semaphore.try_acquire() {
                     permit.forget();
-                    if slots.vec.pop_front().is_some() {
-                        slots.size -= 1;
-                    }
+                    remove -= 1;
+                } else {
+                    break;
+                }
+            }
+            slots.owed += remove;
+            // Drop idle objects exceeding the new maximum size
+            while slots.size > slots.max_size {
+                if slots.vec.pop_front().is_some() {
+                    slots.size -= 1;
                 } else {
                     break;
                 }
@@ -496,7 +524,11 @@ impl<M: Manager, W: From<Object<M>>> Pool<M, W> {
         if max_size > old_max_size {
             let additional = slots.max_size - old_max_size;
             slots.vec.reserve_exact(additional);
-            self.inner.semaphore.add_permits(additional);
+            // Permits still owed from an earlier shrink are cancelled
+            // first. Only the remainder is new capacity.
+            let settled = additional.min(slots.owed);
+            slots.owed -= settled;
+            self.inner.semaphore.add_permits(additional - settled);
         }
     }
 
@@ -648,6 +680,22 @@ struct Slots<T> {
     vec: VecDeque<T>,
     size: usize,
     max_size: usize,
+    /// Number of permits that still have to be taken out of circulation
+    /// after the pool was shrunk while they were in use.
+    owed: usize,
+}
+
+impl<T> Slots<T> {
+    /// Swallows one of the permits still owed from an earlier shrink.
+    /// Returns `false` if nothing is owed.
+    fn settle_owed_permit(&mut self) -> bool {
+        if self.owed > 0 {
+            self.owed -= 1;
+            true
+        } else {
+            false
+        }
+    }
 }
 
 // Implemented manually to avoid unnecessary trait bound on the struct.
@@ -673,26 +721,38 @@ impl<M: Manager> PoolInner<M> {
     fn return_object(&self, mut inner: ObjectInner<M>) {
         let _ = self.users.fetch_sub(1, Ordering::Relaxed);
         let mut slots = self.slots.lock().unwrap();
+        let add_permits = !slots.settle_owed_permit();
         if slots.size <= slots.max_size {
             slots.vec.push_back(inner);
             drop(slots);
-            self.semaphore.add_permits(1);
+            if add_permits {
+                self.semaphore.add_permits(1);
+            }
         } else {
             slots.size -= 1;
             drop(slots);
+            if add_permits {
+                self.semaphore.add_permits(1);
+            }
             self.manager.detach(&mut inner.obj);
         }
     }
     fn detach_object(&self, obj: &mut M::Type) {
         let _ = self.users.fetch_sub(1, Ordering::Relaxed);
         let mut slots = self.slots.lock().unwrap();
-        let add_permits = slots.size <= slots.max_size;
+        let add_permits = !slots.settle_owed_permit();
         slots.size -= 1;
         drop(slots);
         if add_permits {
             self.semaphore.add_permits(1);
         }
         self.manager.detach(obj);
+    }
+    /// Called by `get()` right after it obtained a permit. Returns `true`
+    /// if that permit is owed from an earlier shrink and must be forgotten
+    /// instead of being used.
+    fn settle_owed_permit(&self) -> bool {
+        self.slots.lock().unwrap().settle_owed_permit()
     }
 }
 
